@@ -1,2 +1,389 @@
 import PV.Model.Traverse
 import PV.Model.Dispatch
+import PV.Proofs.Subterm
+import PV.Proofs.WalkDispatch
+import PV.Proofs.WalkSpec
+import PV.Proofs.WalkFacts
+import PV.Proofs.WalkCombine
+import PV.Proofs.WalkIdentity
+import PV.Properties.C08
+/-
+  C04 — mapper dispatch (`Mapper.__call__`, `rec_fallback`, `CachedMapper.__call__`, `map_foreign`),
+  handler names of expression dataclasses, and the contracts of the stock traversals
+  (`WalkMapper` = `walk`, `CombineMapper` = `combineL`, `IdentityMapper` = `substM {}`).
+-/
+namespace PV.C04
+open PV
+
+/-! ## 1. Dispatch -/
+
+/-- **Nearest handler.**  `Mapper.__call__` returns the handler picked by the specification
+`firstImplemented`: the own class's handler name if the mapper implements it, else the first
+ancestor entry (MRO order) whose non-empty name the mapper implements, else the
+unsupported-expression hook. -/
+theorem dispatch_nearest (hs : List String) (mro : List (Option String)) :
+    dispatchExpr hs mro =
+      match firstImplemented hs mro with
+      | some m => .handler m
+      | none => .unsupported := by
+  rw [dispatchExpr_first]; cases firstImplemented hs mro <;> rfl
+
+/-- the specification, spelled out with `List.find?`: own entry first, then the first ancestor -/
+theorem firstImplemented_cons (hs : List String) (own : Option String)
+    (rest : List (Option String)) :
+    firstImplemented hs (own :: rest) =
+      if mroImplements hs true own then own
+      else (rest.find? (mroImplements hs false)).join := rfl
+
+/-- **Nearest handler, index form.**  The result is `handler m` exactly when `m` is the entry at
+the FIRST position `i` of the MRO (position 0 = own class) whose name the mapper implements
+(ancestor names must be non-empty): no earlier position qualifies. -/
+theorem dispatch_handler_iff (hs : List String) (mro : List (Option String)) (m : String) :
+    dispatchExpr hs mro = .handler m ↔
+      ∃ i : Nat, mro[i]? = some (some m) ∧ m ∈ hs ∧ (i ≠ 0 → m ≠ "") ∧
+        ∀ j : Nat, j < i → ∀ m', mro[j]? = some (some m') → ¬ (m' ∈ hs ∧ (j ≠ 0 → m' ≠ "")) :=
+  dispatchExpr_handler_iff hs mro m
+
+/-- … and the unsupported-expression hook is invoked exactly when NO position qualifies. -/
+theorem dispatch_unsupported_iff (hs : List String) (mro : List (Option String)) :
+    dispatchExpr hs mro = .unsupported ↔
+      ∀ (i : Nat) (m : String), mro[i]? = some (some m) → ¬ (m ∈ hs ∧ (i ≠ 0 → m ≠ "")) :=
+  dispatchExpr_unsupported_iff hs mro
+
+/-- **Never silent.**  Dispatch on an expression yields a handler the mapper really implements and
+the class hierarchy really names, or the unsupported hook — there is no default result. -/
+theorem dispatch_never_silent (hs : List String) (mro : List (Option String)) :
+    (∃ m, dispatchExpr hs mro = .handler m ∧ m ∈ hs ∧ some m ∈ mro) ∨
+      dispatchExpr hs mro = .unsupported :=
+  dispatchExpr_cases hs mro
+
+/-- `rec_fallback` is `Mapper.__call__` on the same MRO with the own class's name blanked out. -/
+theorem dispatch_fallback_skips_own (hs : List String) (own : Option String)
+    (rest : List (Option String)) :
+    dispatchFallback hs (own :: rest) = dispatchExpr hs (none :: rest) := rfl
+
+/-- **The copies of the dispatch logic agree**, unconditionally: `CachedMapper.__call__` (own
+handler, else `rec_fallback`) picks what `Mapper.__call__` picks, for every handler set and MRO. -/
+theorem dispatch_copies_agree (hs : List String) (mro : List (Option String)) :
+    dispatchCached hs mro = dispatchExpr hs mro := by
+  cases mro with
+  | nil => rfl
+  | cons own rest => cases own <;> rfl
+
+/-- **Foreign objects**: numbers, arrays, lists and tuples go to their own handlers, anything else
+is rejected (`ValueError`); a foreign object never reaches an expression handler nor the
+unsupported hook. -/
+theorem foreign_routing :
+    dispatchForeign .number = .foreign "map_constant" ∧
+    dispatchForeign .numpyArray = .foreign "map_numpy_array" ∧
+    dispatchForeign .list = .foreign "map_list" ∧
+    dispatchForeign .tuple = .foreign "map_tuple" ∧
+    dispatchForeign .other = .invalidForeign ∧
+    (∀ k, dispatchForeign k = .invalidForeign ↔ k = .other) ∧
+    (∀ k m, dispatchForeign k ≠ .handler m) ∧ (∀ k, dispatchForeign k ≠ .unsupported) := by
+  refine ⟨rfl, rfl, rfl, rfl, rfl, ?_, ?_, ?_⟩
+  · intro k; cases k <;> simp [dispatchForeign]
+  · intro k m; cases k <;> simp [dispatchForeign]
+  · intro k; cases k <;> simp [dispatchForeign]
+
+/-- own class unimplemented, first ancestor has no name, second is implemented -/
+example : dispatchExpr ["map_sum", "map_foo"] [some "map_bar", none, some "map_foo", some "map_sum"]
+    = .handler "map_foo" := by decide
+example : firstImplemented ["map_sum", "map_foo"] [some "map_bar", none, some "map_foo", some "map_sum"]
+    = some "map_foo" := by decide
+/-- nothing implemented: the hook -/
+example : dispatchExpr ["map_x"] [some "map_bar", some "map_foo"] = .unsupported := by decide
+/-- an empty name counts for the own class, not for an ancestor (as coded) -/
+example : dispatchExpr [""] [some ""] = .handler "" ∧ dispatchExpr [""] [none, some ""] = .unsupported := by
+  decide
+example : dispatchFallback ["map_bar", "map_foo"] [some "map_bar", some "map_foo"] = .handler "map_foo" := by
+  decide
+example : dispatchCached ["map_foo"] [some "map_bar", some "map_foo"] = .handler "map_foo" := by decide
+
+/-! ## 2. Handler names -/
+
+/-- **Decorated classes get the derived name** unless they set one themselves — whatever value is
+inherited from the parent. -/
+theorem decorated_default_name (n : String) (parent : Option String) :
+    effectiveMethod n (.decorated none) parent = some ("map_" ++ camelToSnake n) := rfl
+
+/-- a name set in the class body is kept, decorated or not -/
+theorem own_name_kept (n m : String) (parent : Option String) :
+    effectiveMethod n (.decorated (some m)) parent = some m ∧
+    effectiveMethod n (.legacy (some m)) parent = some m := ⟨rfl, rfl⟩
+
+/-- an undecorated class that sets nothing inherits the parent's name -/
+theorem legacy_inherits (n : String) (parent : Option String) :
+    effectiveMethod n (.legacy none) parent = parent := rfl
+
+/-- the derived name only ever inserts underscores -/
+theorem camelToSnake_length_ge (s : String) : s.length ≤ (camelToSnake s).length :=
+  camelToSnake_length_le s
+
+/-- a name that is already snake case (lower-case ASCII letters, digits, underscores) is unchanged -/
+theorem camelToSnake_snake (s : String)
+    (h : ∀ c ∈ s.toList, isLowerAscii c = true ∨ c = '_' ∨ c.isDigit = true) :
+    camelToSnake s = s :=
+  camelToSnake_of_snake s h
+
+example : camelToSnake "CallWithKwargs" = "call_with_kwargs" := by decide
+example : camelToSnake "HTTPServer" = "http_server" := by decide
+example : camelToSnake "Sum" = "sum" ∧ camelToSnake "FloorDiv" = "floor_div" := by decide
+example : camelToSnake "map_2d" = "map_2d" := camelToSnake_snake _ (by decide)
+example : effectiveMethod "MyNode" (.decorated none) (some "map_sum") = some "map_my_node" := by decide
+/-- base sets a name, a legacy subclass inherits it, a decorated sub-subclass gets its own -/
+example : effectiveChain [("Base", .legacy (some "map_base")), ("Mid", .legacy none),
+    ("LeafNode", .decorated none)] none = [some "map_leaf_node", some "map_base", some "map_base"] := by
+  decide
+
+/-! ## 3. The walk mapper -/
+
+/-- **The coded walk is the specification** `walkSpec` (visit, the children's traces once each in
+traversal order unless skipped, post-visit) whenever the walk reaches no string / `None` constant
+outside slice parts (`walkOK`, decidable) … -/
+theorem walk_eq_spec (skip : List String) (args : Bool) (e : Expr) (h : walkOK skip e = true) :
+    walk skip args e = .ok (walkSpec skip args e) := by
+  rw [walk_total, h]; rfl
+
+/-- … and otherwise it raises (`map_foreign` rejects the object): exactly then. -/
+theorem walk_foreign_iff (skip : List String) (args : Bool) (e : Expr) :
+    walk skip args e = .error .foreign ↔ walkOK skip e = false := by
+  rw [walk_total]; cases walkOK skip e <;> simp [okIf]
+
+/-- in particular the walk succeeds on every tree free of string / `None` constants -/
+theorem walk_eq_spec_clean (skip : List String) (args : Bool) (e : Expr)
+    (h : ∀ t, Subterm t e → t.isRejectedConst = false) :
+    walk skip args e = .ok (walkSpec skip args e) :=
+  walk_eq_spec skip args e (walkOK_of_clean skip e h)
+
+/-- the walk never returns a silently shortened trace -/
+theorem walk_never_silent (skip : List String) (args : Bool) (e : Expr) :
+    walk skip args e = .ok (walkSpec skip args e) ∨ walk skip args e = .error .foreign := by
+  rw [walk_total]; cases walkOK skip e
+  · exact .inr rfl
+  · exact .inl rfl
+
+theorem walk_ok_spec {skip : List String} {args : Bool} {e : Expr} {evs : List Event}
+    (h : walk skip args e = .ok evs) : evs = walkSpec skip args e ∧ walkOK skip e = true := by
+  rw [walk_total] at h
+  cases hk : walkOK skip e <;> simp [okIf, hk] at h
+  exact ⟨h.symm, rfl⟩
+
+/-- the side condition, generically: the node is no string / `None`, and unless its children are
+skipped every child the walk descends into satisfies it -/
+theorem walkOK_step (skip : List String) (e : Expr) :
+    walkOK skip e = (!e.isRejectedConst &&
+      ((!e.isLeafNode && skip.contains e.kind) || (walkChildren e).all (walkOK skip))) :=
+  walkOK_eq skip e
+
+/-- **Once per node occurrence.**  With a `visit` that never returns `False`: the visited nodes are
+the node occurrences in pre-order (a node before its children), the post-visited nodes are the same
+occurrences in post-order (a node after its children); each list has `walkCount e` entries. -/
+theorem walk_visits_once (args : Bool) (e : Expr) (evs : List Event)
+    (h : walk [] args e = .ok evs) :
+    (evs.filter (fun ev => !ev.post)).map (·.node) = preorder e ∧
+    (evs.filter (fun ev => ev.post)).map (·.node) = postorder e ∧
+    (evs.filter (fun ev => !ev.post)).length = walkCount e ∧
+    (evs.filter (fun ev => ev.post)).length = walkCount e := by
+  obtain ⟨rfl, -⟩ := walk_ok_spec h
+  have h1 := walkSpec_visit_nodes args e
+  have h2 := walkSpec_post_nodes args e
+  refine ⟨h1, h2, ?_, ?_⟩
+  · rw [← preorder_length, ← h1, List.length_map]
+  · rw [← postorder_length, ← h2, List.length_map]
+
+/-- the occurrences reached are ALL nodes of the tree (`Expr.size`), unless a slice has `None`
+parts (which are not nodes to visit) -/
+theorem walkCount_all_nodes (e : Expr) (h : NoNoneParts e) : walkCount e = e.size :=
+  walkCount_eq_size e h
+
+/-- **Extra arguments pass through unchanged**: every `visit` / `post_visit` call of the traversal
+receives exactly the extra arguments of the top-level call. -/
+theorem walk_args_unchanged (skip : List String) (args : Bool) (e : Expr) (evs : List Event)
+    (h : walk skip args e = .ok evs) : ∀ ev ∈ evs, ev.args = args := by
+  obtain ⟨rfl, -⟩ := walk_ok_spec h
+  exact walkSpec_args skip args e
+
+/-- **Visit before the children, post-visit after them.**  A successful walk starts with the
+`visit` of the root; if the root is not skipped the rest is the concatenation of the walks of its
+children (`mapM`: each child exactly once, in traversal order, each a successful walk of that
+child with the same arguments) followed by the root's `post_visit`. -/
+theorem walk_pre_post (skip : List String) (args : Bool) (e : Expr) (evs : List Event)
+    (h : walk skip args e = .ok evs) :
+    evs.head? = some ⟨false, e, args⟩ ∧
+    ((e.isLeafNode = true ∨ skip.contains e.kind = false) →
+      ∃ traces : List (List Event),
+        (walkChildren e).mapM (walk skip args) = .ok traces ∧
+        evs = ⟨false, e, args⟩ :: (traces.flatten ++ [⟨true, e, args⟩])) := by
+  obtain ⟨rfl, hok⟩ := walk_ok_spec h
+  cases hl : e.isLeafNode with
+  | true =>
+    rw [walkSpec_leaf _ _ hl]
+    refine ⟨rfl, fun _ => ⟨[], ?_, rfl⟩⟩
+    rw [walkChildren_leaf hl]; rfl
+  | false =>
+    rw [walkSpec_node _ _ hl]
+    cases hs : skip.contains e.kind with
+    | true => simp
+    | false =>
+      refine ⟨by simp, fun _ => ⟨(walkChildren e).map (walkSpec skip args), ?_, ?_⟩⟩
+      · rw [walkOK_eq, hl, hs] at hok
+        simp only [Bool.not_false, Bool.and_false, Bool.false_or, Bool.and_eq_true,
+          List.all_eq_true] at hok
+        exact mapM_ok_of_mem _ _ (fun c hc => walk_eq_spec skip args c (hok.2 c hc))
+      · simp [List.flatMap_def]
+
+/-- **`visit` returning `False` skips the children** (and the post-visit): the trace of a skipped
+inner node is its `visit` alone — whatever is below it. -/
+theorem walk_skip (skip : List String) (args : Bool) (e : Expr) (hl : e.isLeafNode = false)
+    (hs : skip.contains e.kind = true) : walk skip args e = .ok [⟨false, e, args⟩] := by
+  have hr : e.isRejectedConst = false := by
+    cases e <;> simp_all [Expr.isLeafNode, Expr.isRejectedConst]
+  have hok : walkOK skip e = true := by rw [walkOK_eq, hr, hl, hs]; rfl
+  rw [walk_eq_spec skip args e hok, walkSpec_node _ _ hl, if_pos hs]
+
+section examples
+/-- `x << (y + 1)` with extra arguments: the shift count `y + 1` is walked before `x` -/
+def shiftE : Expr := .bin .lshift (.var "x") (.nary .sum [.var "y", .const (.int 1)])
+
+example : walkOK [] shiftE = true := by decide
+example : walk [] true shiftE = .ok
+    [⟨false, shiftE, true⟩,
+      ⟨false, .nary .sum [.var "y", .const (.int 1)], true⟩,
+        ⟨false, .var "y", true⟩, ⟨true, .var "y", true⟩,
+        ⟨false, .const (.int 1), true⟩, ⟨true, .const (.int 1), true⟩,
+      ⟨true, .nary .sum [.var "y", .const (.int 1)], true⟩,
+      ⟨false, .var "x", true⟩, ⟨true, .var "x", true⟩,
+     ⟨true, shiftE, true⟩] := by
+  simp [shiftE, walk, wrapWalk, leafWalk, walkL, bind, Except.bind, pure, Except.pure]
+example : walkChildren shiftE = [.nary .sum [.var "y", .const (.int 1)], .var "x"] := by
+  simp [shiftE, walkChildren, BinOp.isShift]
+example : preorder shiftE =
+    [shiftE, .nary .sum [.var "y", .const (.int 1)], .var "y", .const (.int 1), .var "x"] := by
+  simp [shiftE, preorder_eq, walkChildren, BinOp.isShift, Expr.children]
+example : postorder shiftE =
+    [.var "y", .const (.int 1), .nary .sum [.var "y", .const (.int 1)], .var "x", shiftE] := by
+  simp [shiftE, postorder_eq, walkChildren, BinOp.isShift, Expr.children]
+example : walkCount shiftE = 5 ∧ shiftE.size = 5 :=
+  ⟨by simp [shiftE, walkCount_eq, walkChildren, BinOp.isShift, Expr.children], by decide⟩
+example : walkCount shiftE = shiftE.size :=
+  walkCount_all_nodes _ (noNoneParts_of_check (by decide))
+/-- a `None` slice part is not a node occurrence -/
+example : walkCount (.slice [.const .none]) = 1 ∧ (Expr.slice [.const .none]).size = 2 :=
+  ⟨by simp [walkCount_eq, walkChildren, Expr.isNoneConst], by decide⟩
+/-- skipping sums: the children `y`, `1` are not visited, the sum gets no post-visit -/
+example : walk ["Sum"] false (.nary .sum [.var "y", .const (.str "oops")]) =
+    .ok [⟨false, .nary .sum [.var "y", .const (.str "oops")], false⟩] :=
+  walk_skip _ _ _ rfl (by decide)
+/-- a slice with a `None` part: the part is not visited; elsewhere `None` is rejected -/
+example : walkOK [] (.slice [.var "a", .const .none]) = true ∧
+    walkOK [] (.nary .sum [.var "a", .const .none]) = false := by decide
+example : walk [] false (.nary .sum [.var "a", .const .none]) = .error .foreign :=
+  (walk_foreign_iff _ _ _).2 (by decide)
+example : walkChildren (.slice [.var "a", .const .none, .var "b"]) = [.var "a", .var "b"] := by
+  simp [walkChildren, Expr.isNoneConst]
+end examples
+
+/-! ## 4. The combine mapper -/
+
+/-- **Every child is folded in.**  When the combine mapper returns, its result is the list of ALL
+leaf occurrences of the tree (constants, variables, wildcards, function symbols), in field order
+through every child — nothing is dropped. -/
+theorem combineL_eq_leaves (e : Expr) (xs : List Expr) (h : combineL e = .ok xs) :
+    xs = leavesOf e := by
+  have := combineL_total e
+  cases hb : combineBad e <;> simp [CombineOutcome, hb, h] at this
+  exact this
+
+/-- **Reported by raising, never silently skipped**: the combine mapper raises exactly when the
+tree contains a node type it has no handler for (slice, substitution, derivative, NaN) or a
+string / `None` constant. -/
+theorem combineL_unsupported_iff (e : Expr) :
+    (∃ err, combineL e = .error err) ↔ ∃ t, Subterm t e ∧ t.combineUnhandled = true := by
+  rw [← combineBad_iff]
+  have := combineL_total e
+  cases hb : combineBad e <;> simp only [CombineOutcome, hb, if_true, Bool.false_eq_true,
+    if_false] at this
+  · simp [this]
+  · obtain ⟨err, he, -⟩ := this
+    simp [he]
+
+/-- the two outcomes: the full fold, or an unsupported-expression / foreign-object error -/
+theorem combineL_never_silent (e : Expr) :
+    combineL e = .ok (leavesOf e) ∨
+      ∃ err, combineL e = .error err ∧ (err = .unsupported ∨ err = .foreign) := by
+  have := combineL_total e
+  cases hb : combineBad e <;> simp only [CombineOutcome, hb, if_true, Bool.false_eq_true,
+    if_false] at this
+  · exact .inl this
+  · exact .inr this
+
+/-- **One step of the fold**: the result at an inner node is the concatenation of the results of
+ALL its children (`mapM`: each child once, in field order, each a successful fold of that child). -/
+theorem combineL_folds_children (e : Expr) (xs : List Expr) (h : combineL e = .ok xs)
+    (hl : e.isCombineLeaf = false) :
+    ∃ parts : List (List Expr),
+      e.children.mapM combineL = .ok parts ∧ xs = parts.flatten := by
+  have hb : combineBad e = false := by
+    have := combineL_total e
+    cases hb : combineBad e <;> simp [CombineOutcome, hb, h] at this
+    rfl
+  have hx := combineL_eq_leaves e xs h
+  rw [leavesOf_eq, hl] at hx
+  refine ⟨e.children.map leavesOf, mapM_ok_of_mem _ _ (fun c hc => ?_), by simp [hx, List.flatMap_def]⟩
+  rw [combineBad_eq, Bool.or_eq_false_iff, List.any_eq_false] at hb
+  have hc' : combineBad c = false := by simpa using hb.2 c hc
+  have := combineL_total c
+  simpa [CombineOutcome, hc'] using this
+
+section examples
+def combE : Expr :=
+  .ite (.cmp .lt (.var "x") (.const (.int 0))) (.call .funcSym [.var "y", .wildcard])
+    (.callKw (.var "f") [.var "a"] ["k"] [.cse (.var "b") none "s"])
+
+example : combineL combE =
+    .ok [.var "x", .const (.int 0), .funcSym, .var "y", .wildcard, .var "f", .var "a", .var "b"] := by
+  simp [combE, combineL, combineLL, bind, Except.bind, pure, Except.pure]
+example : combineL (.nary .sum [.var "x", .deriv (.var "y") ["y"]]) = .error .unsupported := by
+  simp [combineL, combineLL, bind, Except.bind, pure, Except.pure]; rfl
+example : ∃ t, Subterm t (.nary .sum [.var "x", .nan]) ∧ t.combineUnhandled = true :=
+  ⟨.nan, .child (by simp [Expr.children]), rfl⟩
+end examples
+
+/-! ## 5. The identity mapper -/
+
+/-- **Equal tree.**  The identity mapper returns a tree equal to its input — provided no
+`CommonSubexpression` wrapper has a zero child (see `identity_equal_cex`). -/
+theorem identity_equal_partial (e : Expr) (h : NoZeroCseChild e) : (substM {} e).1 = e := by
+  rw [(substM_spec {} e).1]; exact substE_empty e h
+
+/-- **Same object.**  If moreover the tree contains no Python list (`map_list` always builds a new
+list), the identity mapper returns the very same object. -/
+theorem identity_same_object_partial (e : Expr) (hl : ∀ cs, ¬ Subterm (.list cs) e)
+    (hz : NoZeroCseChild e) : substM {} e = (e, false) :=
+  C08.subst_untouched_same {} e ⟨fun t _ => SubstMap.empty_apply t, hl, hz⟩
+
+/-- whenever the mapper claims "same object" the tree is the same (no hypothesis) -/
+theorem identity_flag_sound (e : Expr) (h : (substM {} e).2 = false) : (substM {} e).1 = e :=
+  C08.subst_flag_sound {} e h
+
+/-- `IdentityMapper()(CommonSubexpression(0))` is the constant `0`: not an equal tree. -/
+theorem identity_equal_cex :
+    substM {} (.cse (.const (.int 0)) none "s") = (.const (.int 0), true) ∧
+    (substM {} (.cse (.const (.int 0)) none "s")).1 ≠ .cse (.const (.int 0)) none "s" := by
+  constructor
+  · rfl
+  · intro h; cases h
+
+/-- a list below the root: an equal tree, but reported as a new object although nothing changed -/
+theorem identity_same_object_cex :
+    substM {} (.call (.var "f") [.list [.var "x"]]) = (.call (.var "f") [.list [.var "x"]], true) := by
+  rfl
+
+example : substM {} combE = (combE, false) :=
+  identity_same_object_partial _ (noList_of_check (by decide)) (noZeroCseChild_of_check (by decide))
+example : (substM {} (.list [combE, .cse (.const (.int 1)) none "s"])).1 =
+    .list [combE, .cse (.const (.int 1)) none "s"] :=
+  identity_equal_partial _ (noZeroCseChild_of_check (by decide))
+
+end PV.C04
